@@ -80,6 +80,8 @@ BUILDS["synct"] = {"files": ["input_queue.rs", "sync_layer.rs", "sessions__sync_
 BUILDS["sess_perm"] = {"files": ["input_queue.rs", "sync_layer.rs", "network__protocol.rs", "sessions__p2p_session@ep.rs"],
                        "consts": {"INPUT_QUEUE_LENGTH": 8, "VCOLL_CAP": 4, "CFG_ggrs_verif_permute": 1}}
 BUILDS["vcoll"] = {"files": ["vcoll.rs"], "consts": {"VCOLL_CAP": 4}}
+BUILDS["builder"] = {"files": ["sessions__builder.rs"], "consts": {"VCOLL_CAP": 4, "CFG_vcoll_boxmap": 1, "INPUT_QUEUE_LENGTH": 8}}
+B_SYNCTEST = [H("b_synctest_w0", "builder", mem=10, timeout=900)]
 
 RING = {"extend_with": 17}
 def Q(n, **kw):
@@ -139,7 +141,7 @@ PC_EVENTS = [PC("pc_event_forwarding_and_cap"), PC("pc_wait_recommendation_respe
 PC_WAIT = [PC("pc_wait_recommendation_gate")]
 PC_CHECKSUM = [PC(n, mem=12) for n in names_in("sessions__p2p_session@calls.rs", "pc_checksum_send_gate_.*")] + [PC("pc_checksum_compare")]
 PC_MISUSE = [PC("pc_misuse_errors"), PC("pc_set_delay_wrong_handle"), PC("pc_advance_not_synchronized"), PC("pc_advance_input_missing")]
-V_ALL = [H(n, "spect", mem=8, timeout=900, unwindset={"SpectatorSession": 9, "drop_glue": 7})
+V_ALL = [H(n, "spect", mem=8, timeout=900, unwindset={"SpectatorSession": 9, "drop_glue": 2})
          for n in names_in("sessions__p2p_spectator_session.rs", "v_advance_.*") if n != "v_advance_r21_behind7_catchup9"] + \
         [H("v_input_event_step", "spect", mem=8, timeout=900),
          H("v_advance_r21_behind7_catchup9", "spect", tier="thorough", mem=24, timeout=2400, unwindset={"SpectatorSession": 9, "drop_glue": 2})]
@@ -206,12 +208,12 @@ P("C18", U_CAP + U_CHECKSUM + U_STREAM_Q + Q_ADD + PC_EVENTS[:2] + PC_OUTGOING,
 P("C06", V_ALL + S_INPUTS[1:],
   "Spectator replay on the real SpectatorSession::advance_frame from ring states an in-order feed produces (positions enumerated: level, 1/3/5/7 behind, exactly one ring lap and more behind, start of session; inputs, gossip symbolic): request count = catch-up contract, each request carries exactly the buffered inputs of its frame with Disconnected exactly where the host's gossip says so, cursor advances by the number delivered, PredictionThreshold iff not yet received, SpectatorTooFarBehind iff overwritten; in-order input events maintain the ring; host side: confirmed_inputs blanks exactly players disconnected as of an earlier frame.",
   "advance_frame's initial poll_remote_clients() is stubbed out in the V harnesses (host endpoint poll is decided by the U harnesses; with an empty socket it cannot touch the ring). Ring of 8 slots instead of 60. The host->spectator stream over a lossy link is covered by the C05/C01 endpoint contracts only.")
-P("C13", T_UNIT + T_TICK,
-  "Checksum comparison kernel of the real SyncTestSession::checksums_consistent for every frame of the check window: the first checksum of a frame is remembered, a later differing re-simulation is flagged, an equal one is not, history outside the window is dropped. One WHOLE advance_frame call from constructed run states (check distance 0/1/2, before the first rollback, on the first rollback, steady state with check distance 1): request list = Load(c-d) [cell holds it], (Save,) Advance with the stored inputs as Confirmed for every frame c-d..c-1, Save(c), Advance(new input); frame counter +1; the first checksum of every saved frame of the window is recorded already on the first rollback; a deterministic game is not flagged.",
+P("C13", T_UNIT + T_TICK + B_SYNCTEST,
+  "Checksum comparison kernel of the real SyncTestSession::checksums_consistent for every frame of the check window: the first checksum of a frame is remembered, a later differing re-simulation is flagged, an equal one is not, history outside the window is dropped. One WHOLE advance_frame call from constructed run states (check distance 0/1/2, before the first rollback, on the first rollback, steady state with check distance 1): request list = Load(c-d) [cell holds it], (Save,) Advance with the stored inputs as Confirmed for every frame c-d..c-1, Save(c), Advance(new input); frame counter +1; the first checksum of every saved frame of the window is recorded already on the first rollback; a deterministic game is not flagged. Builder: with prediction window 0 start_synctest_session rejects every check distance (and sparse saving) with InvalidRequest.",
   "Runs over several ticks and the builder's rejection of check_distance >= window could not be executed symbolically within the caps (probes/attempted/README.md: the root cause of the Kani crash on Result<Session, GgrsError> is a 128-bit niche; two workarounds were tried). The whole-call harnesses use one player, concrete frame positions per instance and symbolic inputs/checksums; steady-state calls at check distance >= 2 (where the comparison itself is symbolic) are decided only through the kernel harness.")
-P("C16", PC_MISUSE + PC_DISC[:1],
-  "Run-time misuse on the real P2PSession: input for a remote/unknown handle, delay change or stats for the wrong player type, advancing with the local input missing or before synchronisation, disconnecting a local/unknown/already disconnected player (also via the sibling handle of the same address) return the documented error and leave frame counter, event queue, pending inputs, statuses and send queues unchanged.",
-  "The SessionBuilder half of the property (accepted configurations == documented ones) is NOT decided: the by-value builder with three endpoint maps exceeds 25 min of symbolic execution per call sequence and triggers a Kani internal compiler error with the inline container model (probes/attempted/README.md).")
+P("C16", PC_MISUSE + PC_DISC[:1] + B_SYNCTEST,
+  "Run-time misuse on the real P2PSession: input for a remote/unknown handle, delay change or stats for the wrong player type, advancing with the local input missing or before synchronisation, disconnecting a local/unknown/already disconnected player (also via the sibling handle of the same address) return the documented error and leave frame counter, event queue, pending inputs, statuses and send queues unchanged. Builder: only start_synctest_session at prediction window 0 (every configuration rejected with InvalidRequest).",
+  "The SessionBuilder half of the property (accepted configurations == documented ones) is NOT decided beyond that one instance: every harness that forms a builder with registered players or builds a session exceeds 15-25 min of symbolic execution under all three niche-hiding container representations (the inline model crashes Kani 0.68: 128-bit niche, see probes/attempted/README.md).")
 P("C04", PC_GLUE[1:] + PC_LOCKSTEP + PC_ADJUST + S_CELLS + PC_SPARSE[:1] + PC_CONF,
   "Prediction gate of the real advance_rollback_frame (rollback and local-input registration stubbed) from ANY frame counters, windows 1..3, dense and sparse saving: a new frame is simulated iff current - min(confirmed_frame(), current[, last saved]) < max_prediction (nothing confirmed counts as frame -1), a stalled call leaves the frame unchanged and returns no AdvanceFrame - so a peer starved for arbitrarily long never runs more than the window ahead; rollbacks load a frame inside the window whose cell holds it; confirmed_frame() itself = min over all connected players (2..4 players, every flag combination); lockstep (window 0): a frame is simulated iff every connected player's input for it has arrived, only with Confirmed/Disconnected inputs, never Save/Load.",
   "The gate harness stubs handle_rollback_and_save, register_local_inputs (its effect on the local newest frame is mimicked) and the spectator feed; windows 0..3 instead of 0..12 (the gate is parametric in the window).")
